@@ -200,6 +200,7 @@ class Case:
                 return
             s = snap_garray(val, self.tol * (50 if single else 1000), 10.0 ** self.scale)
             if s == OFFGRID:
+                self.dead = True        # (whatever follows would only repeat this observation)
                 rec["ongrid"] = False
                 rec["raw"] = str(np.asarray(val).reshape(-1)[:4])
             else:
@@ -299,15 +300,20 @@ class Case:
             if inpl:
                 self.observe("canonize_around_", {"tag": tg, "max_distance": md}, lambda t: t.canonize_around_(tg, max_distance=md))
             else:
-                self.observe("canonize_around", {"tag": tg, "max_distance": md}, lambda t: t.canonize_around(tg, max_distance=md))
+                eq = r.choice([False, False, 1.0, True])
+                self.observe("canonize_around", {"tag": tg, "max_distance": md, "equalize_norms": str(eq)},
+                             lambda t: t.canonize_around(tg, max_distance=md, equalize_norms=eq))
         elif op == "gauge_all_canonize":
             it = r.choice([1, 3])
             absorb = r.choice(["both", "right", "left"])
-            self.observe("gauge_all_canonize", {"max_iterations": it, "absorb": absorb},
-                         lambda t: t.gauge_all_canonize(max_iterations=it, absorb=absorb))
+            eq = r.choice([False, False, 1.0, True])
+            self.observe("gauge_all_canonize", {"max_iterations": it, "absorb": absorb, "equalize_norms": str(eq)},
+                         lambda t: t.gauge_all_canonize(max_iterations=it, absorb=absorb, equalize_norms=eq))
         elif op == "gauge_all_simple":
             it = r.choice([1, 4])
-            self.observe("gauge_all_simple", {"max_iterations": it}, lambda t: t.gauge_all_simple(max_iterations=it))
+            eq = r.choice([False, False, 1.0, True])
+            self.observe("gauge_all_simple", {"max_iterations": it, "equalize_norms": str(eq)},
+                         lambda t: t.gauge_all_simple(max_iterations=it, equalize_norms=eq))
         elif op == "gauge_all_random":
             sd = r.randrange(1000)
             un = r.random() < 0.5
@@ -321,7 +327,10 @@ class Case:
                 return
             tg = r.choice(cand)
             m = r.choice(["canonize", "simple"])
-            self.observe("gauge_local", {"tag": tg, "method": m}, lambda t: t.gauge_local(tg, max_distance=r.choice([1, 2]), method=m))
+            eq = r.choice([False, False, 1.0, True])
+            kw = {"equalize_norms": eq} if eq is not False else {}
+            md = r.choice([1, 2])
+            self.observe("gauge_local", {"tag": tg, "method": m, "equalize_norms": str(eq)}, lambda t: t.gauge_local(tg, max_distance=md, method=m, **kw))
         elif op == "insert_gauge":
             if not nb:
                 return
@@ -411,9 +420,10 @@ class Case:
             a, b, ix = r.choice(nb)
             before = tn.ind_size(ix)
             absorb = r.choice(["both", "left", "right"])
+            eqc = r.choice([False, False, 1.0, True])
             def f(t):
                 t = t.copy()
-                t.compress_between(a, b, cutoff=0.0, max_bond=None, absorb=absorb)
+                t.compress_between(a, b, cutoff=0.0, max_bond=None, absorb=absorb, **({"equalize_norms": eqc} if eqc is not False else {}))
                 return t
             def bd(tn0, tnx):
                 sh = [i for i in tnx[a].inds if i in tnx[b].inds]
